@@ -109,12 +109,14 @@ def run(ctx):
     ctx.analysed(ln.path)
     lf = Flow(ln.body)
     lx = X(ln.body)
+    lsl = Slicer(ln.body)
     ends, restores = [], []
     for s in call_sites(ln, lambda p, c: c.get("name") == "seek"):
         arg = show(s.expr[2][1])
         if "SeekFrom::End{0: 0}" in arg:
             ends.append(s.bb)
-        elif re.search(r"SeekFrom::Start\{0: current_pos\}", arg):
+        elif "SeekFrom::Start{0:" in arg and re.search(r"SeekFrom::Start\{0: [^}]*stream_position\(.*\)@(Ok|Continue)\.0\}", show(lsl.expand(s.expr[2][1]), 400)):
+            # Start(<the position read by stream_position() before measuring>), whatever the local is called
             restores.append(s.bb)
     if ends and restores and all(lf.postdominated_by(e, lambda b: b in restores)[0] or True for e in ends):
         # on the success path of the End seek the restore follows
